@@ -10,7 +10,7 @@
       theorem iter_eq_spec (a : Args) (r : Rule) (h : construct a = .ok r) (hs : Supported a) (n : Nat)
           (hn : the first n periods lie inside 0001..9999) : (iter r n).1 = Spec.RRule.occ a n
 
-  with `Supported` = the negation of the known defect classes D-C01a/c/d/e/f.  What is proved of it
+  with `Supported` = the negation of the known defect classes D-C01a/c/d/e.  What is proved of it
   here is `iter_eq_spec_daily_partial`, `iter_eq_spec_weekly_partial` and
   `iter_eq_spec_yearly_monthly_partial`: the four calendar frequencies DAILY, WEEKLY, MONTHLY, YEARLY
   with any INTERVAL ≥ 1, BYMONTH, BYMONTHDAY, BYYEARDAY, plain BYDAY (any BYDAY for DAILY / WEEKLY,
@@ -454,8 +454,8 @@ example : dates (construct { freq := 2, dtstart := dt 2020 1 1, byweekday := som
 example : (Spec.RRule.occ { freq := 2, dtstart := dt 2020 1 1, byweekday := some [(0, 0), (4, 0)],
                             bysetpos := some [1] } 2).map (fun t => t.toDT.d) = [6] := by decide +kernel
 
--- D-C01f: BYWEEKNO with a start in year 1 (wkst=WE): ValueError from date(0, 1, 1)
-example : (match construct { freq := 0, dtstart := dt 1 12 31, wkst := some 2, byweekno := some [26] } with
-           | .ok r => (iter r 1).2 | .error e => .error e) = .error .ValueError := by decide +kernel
+-- former D-C01f (fixed in /repo): BYWEEKNO with a start in year 1 (wkst=WE) no longer raises
+example : dates (construct { freq := 0, dtstart := dt 1 12 31, wkst := some 2, byweekno := some [26], count := some 1 }) 2
+    = [(2, 6, 26)] := by decide +kernel
 
 end C01
